@@ -23,18 +23,6 @@ Lemma layouts_agree_proof :
   C_LAYOUT_conn_state = MODEL_LAYOUT_conn_state /\ C_LAYOUT_handoff = MODEL_LAYOUT_handoff /\ C_LAYOUT_tuples_key = MODEL_LAYOUT_tuples_key.
 Proof. repeat split; reflexivity. Qed.
 
-(* ---------- the two parsers: the SYN+ACK witness ---------- *)
-Definition synack_frame : frame :=
-  [2;0;0;0;0;1; 2;0;0;0;0;2; 8;0] ++
-  [0x45;0;0;40; 0;0;0;0; 64;6;0;0; 10;0;0;2; 1;2;3;4] ++
-  [0x9c;0x40;0x01;0xbb; 0;0;0;1; 0;0;0;0; 0x50;0x12;0xff;0xff; 0;0;0;0].
-Lemma parse_paths_agree_refuted_proof : ~ parse_paths_agree_stmt proj.
-Proof.
-  intro H. specialize (H true 0 false 4096 synack_frame).
-  assert (fst (parse_fast true 0 false 4096 synack_frame) <> (-1)%Z) as Hne by (vm_compute; discriminate).
-  specialize (H Hne). vm_compute in H. discriminate H.
-Qed.
-
 (* ---------- loop guard ---------- *)
 Lemma no_recapture_proof :
   forall P e st ret pk,
